@@ -396,6 +396,7 @@ fn kd10_set_dictionary_protocol() {
     let dict = [0u8; 1100];
     let dl: usize = kani::any();
     kani::assume(dl <= 1100);
+    let strstart0 = stream.state.strstart;
     let rc = set_dictionary(&mut stream, &dict[..dl]);
     let refused = wrap == 2 || (wrap == 1 && busy) || la != 0;
     if refused {
@@ -413,6 +414,15 @@ fn kd10_set_dictionary_protocol() {
         assert!(stream.state.lookahead == 0 && !stream.state.match_available);
         assert!(stream.state.insert <= 2 && stream.state.insert <= stream.state.strstart);
         assert!(stream.state.block_start == stream.state.strstart as isize, "the first block starts after the dictionary: none of its bytes is data");
+        // zlib: `if (dictLength >= s->w_size)` the history is replaced by the last w_size bytes of the dictionary (a raw
+        // stream restarts at position 0); a shorter dictionary is appended whole
+        let w_size = 1usize << WB;
+        let expect = if dl >= w_size { (if wrap == 0 { 0 } else { strstart0 }) + w_size } else { strstart0 + dl };
+        // (stated where the real window loader takes everything in one go as the contract stub does, i.e. without a slide,
+        // so that a counter-example replays natively; beyond that `expect` still holds under the stub)
+        if dl >= 2 * w_size || strstart0 + dl <= 2 * w_size - MIN_LOOKAHEAD {
+            assert!(stream.state.strstart == expect, "a dictionary of w_size bytes or more is cut to its last w_size bytes");
+        }
     }
     assert!(stream.next_in as usize == user_in.as_ptr() as usize && stream.avail_in == 3, "caller's input cursor restored");
     kani::cover!(rc == ReturnCode::Ok && wrap == 1 && dl == 1100);
@@ -543,5 +553,49 @@ fn kd11_bound_counts_every_gzip_header_field() {
     assert!(with == base + fields, "every supplied field is counted, independently of the others");
     kani::cover!(!has_name && has_comment);
     kani::cover!(has_extra && has_name && has_comment && has_hcrc && hcrc < 0);
+    core::mem::forget(state);
+}
+
+/// deflateGetDictionary (zlib.h: "the sliding dictionary being maintained by deflate"; zlib-ng: the last
+/// min(strstart + lookahead, w_size) bytes that deflate has taken in, look-ahead included): length and bytes for every
+/// position pair, with canaries around the caller's buffer; a NULL buffer only reports the length.
+#[kani::proof]
+#[kani::unwind(4)]
+#[kani::stub(core::fmt::write, stub_fmt_write)]
+#[kani::stub(core::panicking::panic_nounwind, stub_pn)]
+#[kani::stub(core::panicking::panic_nounwind_fmt, stub_pnf)]
+fn kd10_get_dictionary_is_the_window_tail() {
+    const WBG: usize = 4; // w_size 16, window 32 bytes
+    let mut w: [u8; 2 << WBG] = kani::any();
+    let w0 = w;
+    let mut p = [0u16; 1 << WBG];
+    let mut h = [0u16; HASH_SIZE];
+    let mut pe = [MaybeUninit::new(0u8); 4 * 8];
+    let mut sy = [0u8; 3 * 8];
+    let mut state = typed_state(&mut w, &mut p, &mut h, &mut pe, &mut sy, WBG, 8, 6, 0, Strategy::Default);
+    state.window_size = 2 << WBG;
+    let strstart: usize = kani::any();
+    let lookahead: usize = kani::any();
+    kani::assume(strstart <= 32 && lookahead <= 32 && strstart + lookahead <= 32);
+    state.strstart = strstart;
+    state.lookahead = lookahead;
+    let stream = typed_stream(unsafe { &mut *(&mut state as *mut State) });
+    let mut out = [0xEEu8; 16 + 2];
+    let n = unsafe { get_dictionary(&stream, out.as_mut_ptr().add(1)) };
+    let end = strstart + lookahead;
+    assert!(n == Ord::min(end, 16), "everything deflate has taken in, capped at the window size");
+    let i: usize = kani::any();
+    kani::assume(i < 16);
+    if i < n {
+        assert!(out[1 + i] == w0[end - n + i], "oldest first, ending with the newest byte taken in");
+    } else {
+        assert!(out[1 + i] == 0xEE);
+    }
+    assert!(out[0] == 0xEE && out[17] == 0xEE);
+    let n2 = unsafe { get_dictionary(&stream, core::ptr::null_mut()) };
+    assert!(n2 == n);
+    kani::cover!(n == 16 && lookahead == 3);
+    kani::cover!(n == 5 && strstart == 0);
+    core::mem::forget(stream);
     core::mem::forget(state);
 }
